@@ -297,7 +297,7 @@ func (r *Runner) Run() int {
 			if isKnown {
 				continue
 			}
-			if status == "not-reproduced" && h.Sched {
+			if status == "not-reproduced" && h.Sched && v.Label != "hang" {
 				// the violation depends on a goroutine schedule chosen by the solver; the native
 				// runtime scheduler cannot be steered, so the executor's schedule trace is the evidence
 				status = "schedule-only"
@@ -529,6 +529,10 @@ func (r *Runner) replay(h *Harness, sp *sym.HarnessSpec, v *sym.Violation, path 
 	if strings.Contains(out, "test timed out") {
 		// the native run never finished: the disconnect / call under test hangs for real
 		return "reproduced", "native run hung (go test timeout): " + firstLineWith(out, "panic: test timed out")
+	}
+	if want == "hang" {
+		// (a native run that timed out was already reported above)
+		return "not-reproduced", "the loop that exceeded the unwinding bound terminates natively: " + strings.Join(outcomes, "; ")
 	}
 	if want == "deadlock" {
 		if strings.Contains(out, "test timed out") || strings.Contains(out, "all goroutines are asleep") {
